@@ -403,6 +403,8 @@ class Family:
             res.findings += self.reentrant_insert()
         if self.prop == "C11":
             res.findings += self.reentrant_insert(raising=True)
+        if self.prop == "C07":
+            res.findings += self.read_during_iteration()
         if self.prop in ("C01", "C10"):
             res.findings += self.container_test_args()
         if self.prop in ("C01", "C02", "C10"):
@@ -617,6 +619,55 @@ class Family:
                         dict(family="hist-container-args", query=label, auto_index=au, observed={k: str(v) for k, v in bad.items()},
                              property=self.prop)))
         return out[:1]
+
+    def read_during_iteration(self):
+        """`for p in db:` / `for p in db.measurement(m):` with another read of the same database inside the loop body:
+        the iteration must still deliver every stored point. A shortfall whose only cause is a read that goes to CSV storage
+        (one shared file handle) carries the signature of the recorded finding; anything else is reported"""
+        import shutil
+        import tempfile
+
+        tf = C.import_tinyflux()
+        from tinyflux.storages import MemoryStorage
+
+        out = []
+        root = tempfile.mkdtemp(prefix="vf_iter_")
+        n = 0
+        try:
+            for st in ("mem", "csv"):
+                for au in (True, False):
+                    inner = [("len(db)", lambda db: len(db)), ("db.count(a == '1')", lambda db: db.count(tf.TagQuery().a == "1")),
+                             ("db.get_tag_keys()", lambda db: db.get_tag_keys()), ("db.all()", lambda db: db.all()),
+                             ("db.get_timestamps('m')", lambda db: db.get_timestamps("m"))]
+                    for label, read in inner:
+                        n += 1
+                        db = (tf.TinyFlux(storage=MemoryStorage, auto_index=au) if st == "mem"
+                              else tf.TinyFlux(os.path.join(root, f"i{n}.csv"), auto_index=au))
+                        db.insert_multiple(tf.Point(time=V.dt_of(G.T0 + i), measurement="m", tags={"a": str(i)}) for i in range(5))
+                        seen = {"for p in db": 0, "for p in db.measurement('m')": 0}
+                        try:
+                            for _ in db:
+                                seen["for p in db"] += 1
+                                read(db)
+                            for _ in db.measurement("m"):
+                                seen["for p in db.measurement('m')"] += 1
+                                read(db)
+                        except Exception as e:
+                            seen["raised"] = type(e).__name__
+                        db.close()
+                        if seen != {"for p in db": 5, "for p in db.measurement('m')": 5}:
+                            # the recorded finding: CSV storage, and the inner read is one that goes to storage
+                            to_storage = st == "csv" and (not au or label == "db.all()")
+                            out.append(Finding(
+                                "impl-vs-spec", f"{st}/{'auto' if au else 'noauto'}: 5 points stored; with `{label}` inside the loop body, "
+                                f"iteration delivered {seen}",
+                                dict(family="hist-read-during-iteration", storage=st, auto_index=au, inner=label, observed=seen,
+                                     expected="5 and 5", property=self.prop),
+                                signature=("storage-read-during-iteration" if to_storage and "raised" not in seen else None)))
+        finally:
+            shutil.rmtree(root, ignore_errors=True)
+        out.sort(key=lambda f: f.signature is not None)
+        return out[:1] if out and out[0].signature is None else out[:1]
 
     def noninjective_transforms(self):
         """queries whose path transform maps several stored names / values to one (`map(str.lower) == ...`), or whose
@@ -907,6 +958,8 @@ class Family:
         case = k.get("witness")
         if not case:
             return False
+        if case.get("scenario") == "read-during-iteration":
+            return any(f.signature == k["signature"] for f in self.read_during_iteration())
         d = run_one(case, False, False)
         return d is not None and d["kind"] == "impl-vs-spec"
 
@@ -943,6 +996,10 @@ def replay(payload):
     if payload.get("family") == "hist-container-args":
         r = Family(payload.get("property", "C01")).container_test_args()
         print(r[0].summary if r else "container-argument scenario passes")
+        return bool(r)
+    if payload.get("family") == "hist-read-during-iteration":
+        r = Family(payload.get("property", "C07")).read_during_iteration()
+        print(r[0].summary if r else "read-during-iteration scenario passes")
         return bool(r)
     if payload.get("family") == "hist-noninjective":
         r = Family(payload.get("property", "C01")).noninjective_transforms()
